@@ -249,7 +249,8 @@ class ArcBasedRoutingProblem(RoutingProblem):
             brhs.append(1)
             row_index += 1
 
-        self.constraints_matrix = sparse.coo_array((aval, (arow,acol)))
+        self.constraints_matrix = sparse.coo_array((aval, (arow,acol)),
+            shape=(len(brhs), self.get_num_variables()))
         self.constraints_rhs = np.array(brhs)
         self.constraints_built = True
         return
@@ -342,7 +343,8 @@ class ArcBasedRoutingProblem(RoutingProblem):
 #            brhs.append(1)
 #            row_index += 1
 
-        self.constraints_matrix = sparse.coo_array((aval, (arow,acol)))
+        self.constraints_matrix = sparse.coo_array((aval, (arow,acol)),
+            shape=(len(brhs), self.get_num_variables()))
         self.constraints_rhs = np.array(brhs)
         self.constraints_built = True
         return
